@@ -299,9 +299,16 @@ class Scenario(object):
         s = {'master': dict(b.get_account_cash_balance()), 'ports': {}}
         for pid in list(b.portfolios.keys()):
             p = b.portfolios[pid]
+            report = b.get_portfolio_as_dict(pid)
+            kept = {a: dict(d) for a, d in report.items()}
+            # the report is the caller's own copy: what the caller then does with it (here: empties it) is not the broker's
+            # business and must not reach the books
+            for d_ in report.values():
+                d_.clear()
+            report.clear()
             s['ports'][pid] = {
                 'cash': b.get_portfolio_cash_balance(pid),
-                'hold': b.get_portfolio_as_dict(pid),
+                'hold': kept,
                 'mv': b.get_portfolio_total_market_value(pid),
                 'eq': b.get_portfolio_total_equity(pid),
                 'pend': [o.order_id for o in list(b.open_orders[pid].queue)],
@@ -1414,9 +1421,14 @@ class PortfolioScenario(Scenario):
 
     def snapshot(self):
         p = self.pf
+        report = p.portfolio_to_dict()
+        kept = {a: dict(d) for a, d in report.items()}
+        for d_ in report.values():
+            d_.clear()
+        report.clear()                  # the caller's copy, emptied by the caller
         return {'master': {'USD': 0.0, 'GBP': 0.0, 'EUR': 0.0}, 'ports': {'P': {
             'cash': p.cash,
-            'hold': p.portfolio_to_dict(),
+            'hold': kept,
             'mv': p.total_market_value,
             'eq': p.total_equity,
             'pend': [],
